@@ -227,7 +227,7 @@ theorem ginv_writeLoop (P : Params) (S : GSess) (L : S.Laws P.codec) (fuel : Nat
             intro hT
             have hn := (h3 hT).1
             simp [bwWrite, hn] at h
-          obtain ⟨w, hbw, b0, c, d, e⟩ := h4 hT
+          obtain ⟨w, hbw, b0, c, d, e, ecl⟩ := h4 hT
           have e' := e hC
           have hidx : sbn - st.blocksOffset < st.blocks.length := by
             have := List.getElem?_eq_some_iff.mp hblk
@@ -251,7 +251,7 @@ theorem ginv_writeLoop (P : Params) (S : GSess) (L : S.Laws P.codec) (fuel : Nat
             have hwr := wr_bwWrite _ _ _ _ heq
             have h1' := hi.wr ho hwr
             obtain ⟨hws, data, hsrc, hp⟩ := (jw_bwWrite _ _ _ _ _ hbw d heq).2.2 rfl
-            obtain ⟨w', p1, p2, p3, p4, p5, p6, p7⟩ := hp.ex
+            obtain ⟨w', p1, p2, p3, p4, pcl, pnbw, p5, p6, p7⟩ := hp.ex
             have hdata : data = S.D sbn := blockOK_sourceBlock hbok data hsrc
             have hw1 := p7 (b0.trans hC) e'.1
             -- the bytes written so far are the first sbn+1 blocks
@@ -299,13 +299,15 @@ theorem ginv_writeLoop (P : Params) (S : GSess) (L : S.Laws P.codec) (fuel : Nat
                     have : GInv S (finishObject (popBlock st1 (sbn - st.blocksOffset) blk) w2) := by
                       unfold finishObject
                       split
-                      · exact ginv_complete hg2.toGStat (Or.inr ho2) (fun _ => hall)
                       · exact ginv_error _ hg2.toGStat (Or.inr ho2)
+                      · split
+                        · exact ginv_complete hg2.toGStat (Or.inr ho2) (fun _ => hall)
+                        · exact ginv_error _ hg2.toGStat (Or.inr ho2)
                     exact ⟨fun _ => this, this.toGStat⟩
                   · rename_i hnz
                     have jo1 : JOpen st1 := by
                       refine ⟨hp.nc, T, C, hp.same.tl.trans h1, hp.same.cenc.trans h2, fun hT0 => absurd hT0 hT, fun _ => ?_⟩
-                      refine ⟨w2, p1, p2.trans b0, hnz, p5 hnz, fun _ => ?_⟩
+                      refine ⟨w2, p1, p2.trans b0, hnz, p5 hnz, fun _ => ?_, by rw [pcl, ecl, hp.same.cl]⟩
                       refine ⟨hw1.2, ?_⟩
                       rw [hw1.1, List.length_append, p4]
                       have := trimTo_length_le w.bytesLeft data
@@ -504,7 +506,7 @@ theorem ginv_pushToBlock2 (P : Params) (S : GSess) (L : S.Laws P.codec) (st : St
                   have hg2 : GInv S { st1 with blocks := st1.blocks.set (pid.sbn - st.blocksOffset) b2 } :=
                     ginv_setBlock hg1 _ b2 (by rw [hoff1, e0]; exact hb2)
                   have q2 : QuietJ st { st1 with blocks := st1.blocks.set (pid.sbn - st.blocksOffset) b2 } :=
-                    q1.trans ⟨⟨rfl, rfl, rfl, rfl, rfl, rfl, .inl rfl, rfl, rfl⟩, ⟨rfl, rfl, rfl, rfl, rfl, rfl, rfl⟩⟩
+                    q1.trans ⟨⟨rfl, rfl, rfl, rfl, rfl, rfl, .inl rfl, rfl, rfl, rfl⟩, ⟨rfl, rfl, rfl, rfl, rfl, rfl, rfl, rfl⟩⟩
                   split at h
                   · exact ginv_writeBlocks _ _ L _ _ (hi.quiet q2.q) (hj.sameJ q2.j) hg2 h
                   · simp at h; obtain ⟨rfl, rfl⟩ := h
@@ -546,7 +548,7 @@ theorem ginv_cacheLoop (P : Params) (S : GSess) (L : S.Laws P.codec) (fuel : Nat
         have := hi.term t
         simp [hc] at this
       have hl2 : Live { st with cache := rest } := hl
-      have hj2 : JInv P { st with cache := rest } := hj.sameJ ⟨rfl, rfl, rfl, rfl, rfl, rfl, rfl⟩
+      have hj2 : JInv P { st with cache := rest } := hj.sameJ ⟨rfl, rfl, rfl, rfl, rfl, rfl, rfl, rfl⟩
       have hg2 : GInv S { st with cache := rest } := by
         refine ⟨⟨hg.oti, hg.tl, hg.cenc, hg.part, hg.room, ?_⟩, hg.blocks, hg.opened, hg.closed⟩
         intro q hq; exact hg.cacheGen q (by rw [hc]; simp [hq])
